@@ -108,9 +108,38 @@ static int do_rand(unsigned seed) {
     return 0;
 }
 
+// race: several threads call cancel_group_execution on the same not-yet-cancelled context at once (also through its task_group): exactly one gets true;
+// the context stays cancelled until reset(); an isolated sibling and the parent are not touched.
+static int do_race(unsigned seed, int rounds) {
+    std::mt19937 rng(seed);
+    long notone = 0, notsticky = 0, spurious = 0;
+    for (int r = 0; r < rounds; ++r) {
+        int K = 2 + rng() % 5;
+        tbb::task_group_context parent(tbb::task_group_context::isolated);
+        tbb::task_group tgp(parent);
+        tgp.run_and_wait([&] {
+            tbb::task_group_context ctx, sibling, iso(tbb::task_group_context::isolated);
+            bind_here(ctx); bind_here(sibling); bind_here(iso);
+            std::atomic<int> go{0}, trues{0};
+            std::vector<std::thread> th;
+            for (int t = 0; t < K; ++t) th.emplace_back([&] { go++; while (go.load() < K) {} if (ctx.cancel_group_execution()) trues++; });
+            for (auto& x : th) x.join();
+            if (trues.load() != 1) notone++;
+            if (!ctx.is_group_execution_cancelled()) notsticky++;
+            if (ctx.cancel_group_execution()) notone++;                       // already cancelled: nobody gets true any more
+            if (sibling.is_group_execution_cancelled() || iso.is_group_execution_cancelled() || parent.is_group_execution_cancelled()) spurious++;
+            ctx.reset(); if (ctx.is_group_execution_cancelled()) notsticky++;
+            if (!ctx.cancel_group_execution()) notone++;                      // after reset it is "not yet cancelled" again
+        });
+    }
+    std::printf("BAD %ld SPURIOUS %ld STICKY %ld\n", notone, spurious, notsticky);
+    return 0;
+}
+
 int main(int argc, char** argv) {
     std::string m = argc > 1 ? argv[1] : "";
     if (m == "wide") return do_wide(atol(argv[2]), atol(argv[3]));
     if (m == "rand") return do_rand((unsigned)atoi(argv[2]));
+    if (m == "race") return do_race((unsigned)atoi(argv[2]), 300);
     return 2;
 }
